@@ -334,7 +334,7 @@ fn version_of(resp: &Response) -> i64 {
 
 /// Waits are event-driven; this bound only turns a dead server into an observation
 /// ("Stuck") instead of a hung harness.
-const PROMPT: Duration = Duration::from_secs(20);
+const PROMPT: Duration = Duration::from_secs(10);
 /// Fallback for designs that do not report "waiting": silence for this long after a
 /// notification was begun while workers are alive is read as "the loop is waiting".
 const BLOCK_PROBE: Duration = Duration::from_millis(300);
@@ -622,6 +622,10 @@ pub fn cmd_replay(args: &[String]) -> i32 {
             continue;
         }
         let sched: Value = serde_json::from_str(&line).expect("schedule json");
+        if tool_errors >= 3 {
+            // a server that gets stuck is reported by the first cases; do not spend minutes on the rest
+            continue;
+        }
         let (events, stuck) = replay_schedule(&sched, &keys);
         if stuck {
             tool_errors += 1;
@@ -713,12 +717,44 @@ fn code_action_params(u: &str, line: u32) -> Value {
            "context":{"diagnostics":[]}})
 }
 
+/// canonical form of a response for comparison across runs: arrays are compared as
+/// multisets (orderings are the business of C16/C18), the request id is left out
+fn canon(v: &Value) -> Value {
+    match v {
+        Value::Array(a) => {
+            let mut items: Vec<Value> = a.iter().map(canon).collect();
+            items.sort_by_key(|x| x.to_string());
+            Value::Array(items)
+        }
+        Value::Object(o) => {
+            let mut m = serde_json::Map::new();
+            let mut keys: Vec<&String> = o.keys().collect();
+            keys.sort();
+            for k in keys {
+                m.insert(k.clone(), canon(&o[k]));
+            }
+            Value::Object(m)
+        }
+        other => other.clone(),
+    }
+}
+
+fn digest(r: &Response) -> String {
+    use std::hash::{Hash, Hasher};
+    let v = json!({"result": r.result.as_ref().map(canon), "error": r.error.as_ref().map(|e| e.code)});
+    let mut h = std::collections::hash_map::DefaultHasher::new();
+    v.to_string().hash(&mut h);
+    format!("{:016x}", h.finish())
+}
+
 struct SeqRun {
     rec: Arc<Rec>,
     client: Client,
     next_id: i64,
     ids: HashMap<String, Value>, // data class -> node id learnt in the warm-up
     stuck: bool,
+    expect: String,              // digest the next request's response must have ("" = unknown)
+    last_digest: String,
 }
 
 impl SeqRun {
@@ -731,7 +767,8 @@ impl SeqRun {
         let id = self.next_id;
         self.next_id += 1;
         let ids = id.to_string();
-        self.log(json!({"ev":"SendReq","r":id,"key":key,"cls":cls,"method":method}));
+        let expect = std::mem::take(&mut self.expect);
+        self.log(json!({"ev":"SendReq","r":id,"key":key,"cls":cls,"method":method,"expect":expect}));
         self.client.send_req(&ids, method, params);
         let ok = self
             .rec
@@ -753,8 +790,9 @@ impl SeqRun {
         let mut mine = None;
         for r in self.client.drain(Duration::ZERO) {
             let rid_ = rid(&r.id);
-            self.log(json!({"ev":"Resp","r":num(&rid_),"seen":version_of(&r),"err":r.error.is_some()}));
+            self.log(json!({"ev":"Resp","r":num(&rid_),"seen":version_of(&r),"err":r.error.is_some(),"digest":digest(&r)}));
             if rid_ == ids {
+                self.last_digest = digest(&r);
                 mine = Some(r);
             }
         }
@@ -856,7 +894,7 @@ impl SeqRun {
     }
 }
 
-pub fn run_sequence(seq: &Value) -> Value {
+pub fn run_sequence(seq: &Value, baseline: &HashMap<String, String>) -> (Value, String) {
     let rec = recorder().clone();
     rec.reset();
     rec.m.lock().unwrap().free_run = true;
@@ -867,6 +905,8 @@ pub fn run_sequence(seq: &Value) -> Value {
         next_id: 1,
         ids: HashMap::new(),
         stuck: false,
+        expect: String::new(),
+        last_digest: String::new(),
     };
     // warm-up: learn the node ids behind the code actions offered on each kind of line
     for cls in ["section", "ref", "dangling", "item", "topref", "subsection"] {
@@ -884,11 +924,26 @@ pub fn run_sequence(seq: &Value) -> Value {
         }
     }
     run.log(json!({"ev":"WarmupDone","ids":run.ids.len()}));
-    for st in seq.as_array().cloned().unwrap_or_default() {
+    // requests do not change the library: as long as no edit notification was sent, the
+    // answer to a request must be the one a fresh server gives to it (the baseline)
+    let mut edited = false;
+    let mut first_digest = String::new();
+    for (i, st) in seq.as_array().cloned().unwrap_or_default().iter().enumerate() {
         if run.stuck {
             break;
         }
-        run.step(&st);
+        let m = st["m"].as_str().unwrap_or("");
+        if m.starts_with("notify/did") {
+            edited = true;
+        }
+        if !edited && i > 0 {
+            run.expect = baseline.get(&st.to_string()).cloned().unwrap_or_default();
+        }
+        run.last_digest.clear();
+        run.step(st);
+        if i == 0 {
+            first_digest = run.last_digest.clone();
+        }
     }
     if !run.stuck {
         // the probe: a request whose correct answer is known
@@ -900,19 +955,31 @@ pub fn run_sequence(seq: &Value) -> Value {
         run.log(json!({"ev":"Exit","ok": exit == Some(true)}));
     }
     let s = run.rec.m.lock().unwrap();
-    json!(s.events.clone())
+    (json!(s.events.clone()), first_digest)
 }
 
-/// `vh router-seq <sequences.ndjson> <out.ndjson> [--shard i/n]`
+/// `vh router-seq <sequences.ndjson> <out.ndjson> [--shard i/n] [--baseline f] [--emit-baseline f]`
 pub fn cmd_seq(args: &[String]) -> i32 {
     let inp = &args[0];
     let outp = &args[1];
     let mut shard = (0usize, 1usize);
+    let mut baseline: HashMap<String, String> = HashMap::new();
+    let mut emit: Option<std::io::BufWriter<std::fs::File>> = None;
     let mut i = 2;
     while i < args.len() {
         if args[i] == "--shard" {
             let p: Vec<usize> = args[i + 1].split('/').map(|s| s.parse().unwrap()).collect();
             shard = (p[0], p[1]);
+            i += 1;
+        } else if args[i] == "--baseline" {
+            for line in std::fs::read_to_string(&args[i + 1]).unwrap_or_default().lines() {
+                if let Ok(v) = serde_json::from_str::<Value>(line) {
+                    baseline.insert(v["elem"].to_string(), v["digest"].as_str().unwrap_or("").to_string());
+                }
+            }
+            i += 1;
+        } else if args[i] == "--emit-baseline" {
+            emit = Some(std::io::BufWriter::new(std::fs::File::create(format!("{}.{}", args[i + 1], shard.0)).expect("baseline out")));
             i += 1;
         }
         i += 1;
@@ -927,7 +994,12 @@ pub fn cmd_seq(args: &[String]) -> i32 {
             continue;
         }
         let seq: Value = serde_json::from_str(&line).expect("sequence json");
-        let events = run_sequence(&seq);
+        let (events, first_digest) = run_sequence(&seq, &baseline);
+        if let Some(e) = emit.as_mut() {
+            if seq.as_array().map(|a| a.len()) == Some(1) && !first_digest.is_empty() {
+                writeln!(e, "{}", json!({"elem": seq[0], "digest": first_digest})).unwrap();
+            }
+        }
         writeln!(out, "{}", json!({"ev":"Reset","case": ln, "seq": seq})).unwrap();
         for e in events.as_array().unwrap() {
             // gate events of free-running workers carry no information for the judge
@@ -940,6 +1012,9 @@ pub fn cmd_seq(args: &[String]) -> i32 {
     }
     writeln!(out, "{}", json!({"ev":"End"})).unwrap();
     out.flush().unwrap();
+    if let Some(mut e) = emit {
+        e.flush().unwrap();
+    }
     eprintln!("router-seq: {} sequences", n);
     0
 }
